@@ -878,7 +878,9 @@ impl Run {
         });
         let dir = verif_dir().join("evidence");
         let _ = std::fs::create_dir_all(&dir);
-        let path = dir.join(format!("{}.json", self.id));
+        // (SEQIO_EVIDENCE_NAME: a complementary pass writes its evidence beside the main file; check.sh merges the two)
+        let name = std::env::var("SEQIO_EVIDENCE_NAME").unwrap_or_else(|_| self.id.clone());
+        let path = dir.join(format!("{}.json", name));
         std::fs::write(&path, serde_json::to_string_pretty(&ev).unwrap()).expect("cannot write evidence");
         println!(
             "{} {}: {} evaluations, {} distinct non-trivial, {} violation(s), {} known finding(s) hit, {:.1}s",
